@@ -158,7 +158,7 @@ def degenerate_case(rng, *, hermitian=True, fmt="dense", pattern=(1, 0, 0), max_
     return dict(sub=sub, nparam=nparam, N=N, H=H, hermitian=hermitian, fully=(None if default_full else [0]), fmt=fmt)
 
 
-NSPECIAL = 20
+NSPECIAL = 22
 
 
 def special_case(rng, k, *, hermitian=True, N=3, max_params=2):
@@ -181,6 +181,10 @@ def special_case(rng, k, *, hermitian=True, N=3, max_params=2):
         return degenerate_case(rng, hermitian=hermitian, fmt="dense", pattern=(0, 1, 0), max_params=max_params, N=N, extra_block=True)
     if k == 7:
         return degenerate_case(rng, hermitian=hermitian, fmt="sympy", pattern=(1, 0, 1, 0), max_params=1, N=N, default_full=True)
+    if k == 20:
+        return two_full_blocks_case(rng, hermitian=hermitian, fmt="sympy", max_params=max_params, N=N)
+    if k == 21:
+        return two_full_blocks_case(rng, hermitian=hermitian, fmt="dense", max_params=max_params, N=N)
     if k == 18:
         return mask_degenerate_case(rng, hermitian=hermitian, fmt="sympy", max_params=max_params, N=N)
     if k == 19:
@@ -375,6 +379,22 @@ def mask_degenerate_case(rng, *, hermitian=True, fmt="sympy", max_params=2, N=3)
         if sum(o) == 1 or rng.random() < 0.25:
             H[key(o)] = gq.enc(rand_matrix(rng, n, herm=hermitian, cplx=cplx, dyadic=exactfloat, density=1.0))
     return dict(sub=sub, nparam=nparam, N=N, H=H, hermitian=hermitian, fully={"0": m}, fmt=fmt)
+
+
+def two_full_blocks_case(rng, *, hermitian=True, fmt="sympy", max_params=2, N=3):
+    """Two fully diagonalised blocks of EQUAL size with DIFFERENT degeneracy patterns (a degenerate pair and two distinct
+    levels), one parameter: len(sub) + nparam is odd, so implrun.build_fully lists the blocks as (1, 0)."""
+    exactfloat = fmt != "sympy"
+    sub = [0, 0, 1, 1] if rng.random() < 0.5 else [1, 1, 0, 0]
+    lv = [0, 0, 1, 2] if exactfloat else [1, 1, 3, 5]
+    E = [G(Fr(v)) for v in lv]
+    nparam = 1
+    H = {key((0,) * nparam): gq.enc(diag_matrix(E))}
+    cplx = rng.random() < 0.5
+    for o in [o for o in gq.orders_upto(nparam, 2) if sum(o) >= 1]:
+        if sum(o) == 1 or rng.random() < 0.25:
+            H[key(o)] = gq.enc(rand_matrix(rng, 4, herm=hermitian, cplx=cplx, dyadic=exactfloat, density=1.0))
+    return dict(sub=sub, nparam=nparam, N=N, H=H, hermitian=hermitian, fully=[0, 1], fmt=fmt)
 
 
 def coupled_late_case(rng, *, hermitian=True, fmt=None, N=4, expr=False):
